@@ -34,9 +34,22 @@ def run(descrs, tokens, mols, tag="kernel"):
          "Definition got_m := map (fun c => check_mol (fst c) (snd c)) " + L("(" + L(coq_lit(x) for x in vs) + f", {coq_lit(t)})" for t, vs in zip(mols, val_m)) + ".",
          "Definition want_m := " + L(coq_lit(o) for o in out_m) + ".",
          "Eval vm_compute in (mismatches 0 got_d want_d, mismatches 0 got_t want_t, mismatches 0 got_m want_m)."]
-    path = os.path.join(fw.BUILD, f"{tag}_cases.v")
+    # one file per process: two checks of the same property may run at the same time
+    stem = os.path.join(fw.BUILD, f"{tag}_cases_{os.getpid()}")
+    path = stem + ".v"
     open(path, "w").write("\n".join(v) + "\n")
-    p = subprocess.run(["bash", "-c", f"ulimit -s unlimited 2>/dev/null; timeout 600 coqc -Q {fw.COQ} GBS {path}"], stdout=subprocess.PIPE, stderr=subprocess.STDOUT, text=True, timeout=700)
+    try:
+        p = subprocess.run(["bash", "-c", f"ulimit -s unlimited 2>/dev/null; timeout 600 coqc -Q {fw.COQ} GBS {path}"], stdout=subprocess.PIPE, stderr=subprocess.STDOUT, text=True, timeout=700)
+    finally:
+        for ext in (".v", ".vo", ".vok", ".vos", ".glob"):
+            try:
+                os.remove(stem + ext)
+            except OSError:
+                pass
+        try:
+            os.remove(os.path.join(fw.BUILD, "." + os.path.basename(stem) + ".aux"))
+        except OSError:
+            pass
     m = re.search(r"=\s*\((\[[^\]]*\]),\s*(\[[^\]]*\]),\s*(\[[^\]]*\])\)", p.stdout.replace("\n", " "))
     if p.returncode != 0 or not m:
         raise RuntimeError("kernel evaluation failed: " + p.stdout[-600:])
